@@ -5,6 +5,13 @@ import curtsies.formatstring as F
 
 NARROW, WIDE, COMB = "a", "Ｅ", "́"
 ALPHA3 = (NARROW, WIDE, COMB)
+# characters that only matter in SEQUENCE (widths are judged per code point, as the library cuts): a double-width emoji and a
+# double-width Fitzpatrick modifier, VARIATION SELECTOR-16 and ZERO WIDTH JOINER (zero-width), and Indic spacing marks on which
+# cwcwidth (1) and the pure-Python wcwidth table (0) disagree
+THUMB, TONE, VS16, ZWJ, AA_SIGN, KA = "\U0001F44D", "\U0001F3FD", "\ufe0f", "\u200d", "\u093e", "\u0915"
+SEQ_ALPHA = ("1", THUMB, TONE, VS16, ZWJ, AA_SIGN)
+SEQ_TEXTS = [THUMB + TONE, "x" + THUMB + TONE + "y", "1" + VS16, "1" + VS16 + "ab", THUMB + ZWJ + THUMB, "\U0001F468" + ZWJ + "\U0001F469" + ZWJ + "\U0001F467",
+             KA + AA_SIGN, KA + AA_SIGN + KA, "\u2764" + VS16, WIDE + TONE + COMB + THUMB, "a" + AA_SIGN + VS16 + TONE, "\u0ba4\u0bbe\u0bae"]
 _SPACE = re.compile(r"\s")
 
 
@@ -115,7 +122,10 @@ def shared_variants(chunks, other=None):
 
 _pools = {}
 WTEXTS = ["", "a", "ab", "\uff25", "a\uff25", "\uff25\uff25", "\u0301", "a\u0301", "\u0301a", "\uff25\u0301b", "ab\uff25c", "x y",
-          "a\u0301\uff25\u0301"]
+          "a\u0301\uff25\u0301",
+          # sequences that sequence-aware width tables collapse, and code points on which width tables disagree
+          "\U0001F44D\U0001F3FD", "x\U0001F44D\U0001F3FDy", "1\ufe0f", "1\ufe0fab", "\U0001F468\u200d\U0001F469",
+          "\u0915\u093e", "\u2764\ufe0f", "\u0ba4\u0bbe"]
 
 
 def pool_object(seed, index, steps=14, wide=False):
